@@ -391,6 +391,7 @@ type MethodFact struct {
 	ReachWrite  bool     `json:"reach_write"` // some function reachable through static callee names writes through a receiver/config
 	ReachLock   bool     `json:"reach_lock"`
 	GetState    bool     `json:"get_state"` // calls getState(...) (which itself checks IsInit)
+	ViaExported bool     `json:"via_exported"` // every use of the receiver is a call of one of its exported methods (nothing private is touched)
 }
 
 func collectFacts() []MethodFact {
@@ -586,6 +587,37 @@ func analyse(fd *ast.FuncDecl, mf *MethodFact) {
 			}
 		}
 	}
+	// ViaExported: the receiver identifier occurs only as `recv.Exported(...)`
+	if recv != "" {
+		uses, okUses := 0, 0
+		callFuns := map[*ast.SelectorExpr]bool{}
+		ast.Inspect(fd.Body, func(n ast.Node) bool {
+			if ce, ok := n.(*ast.CallExpr); ok {
+				if se, ok := ce.Fun.(*ast.SelectorExpr); ok {
+					callFuns[se] = true
+				}
+			}
+			return true
+		})
+		ast.Inspect(fd.Body, func(n ast.Node) bool {
+			switch v := n.(type) {
+			case *ast.SelectorExpr:
+				if id, ok := v.X.(*ast.Ident); ok && id.Name == recv {
+					uses++
+					if callFuns[v] && ast.IsExported(v.Sel.Name) {
+						okUses++
+					}
+					return false
+				}
+			case *ast.Ident:
+				if v.Name == recv {
+					uses++ // a bare use (passed on, dereferenced, compared ...)
+				}
+			}
+			return true
+		})
+		mf.ViaExported = uses > 0 && uses == okUses
+	}
 	mf.LockFirst = mf.Locks && (firstRead == token.NoPos || firstLock < firstRead)
 	for c := range calleeSet {
 		mf.Callees = append(mf.Callees, c)
@@ -596,15 +628,15 @@ func analyse(fd *ast.FuncDecl, mf *MethodFact) {
 func genFacts(fs []MethodFact) string {
 	var b strings.Builder
 	b.WriteString("/- GENERATED by /verif/extract from /repo — do not edit. -/\nnamespace Gen\n\n")
-	b.WriteString("structure MFact where\n  recv : String\n  name : String\n  exported : Bool\n  ptrRecv : Bool\n  initGuard : Bool\n  ronlyGuard : Bool\n  delegates : String\n  usesSetState : Bool\n  writes : Bool\n  locks : Bool\n  lockFirst : Bool\n  reachWrite : Bool\n  reachLock : Bool\n  getState : Bool\n  deriving Repr\n\n")
+	b.WriteString("structure MFact where\n  recv : String\n  name : String\n  exported : Bool\n  ptrRecv : Bool\n  initGuard : Bool\n  ronlyGuard : Bool\n  delegates : String\n  usesSetState : Bool\n  writes : Bool\n  locks : Bool\n  lockFirst : Bool\n  reachWrite : Bool\n  reachLock : Bool\n  getState : Bool\n  viaExported : Bool\n  deriving Repr\n\n")
 	b.WriteString("def facts : List MFact := [\n")
 	for i, f := range fs {
 		sep := ","
 		if i == len(fs)-1 {
 			sep = ""
 		}
-		fmt.Fprintf(&b, "  ⟨%q, %q, %v, %v, %v, %v, %q, %v, %v, %v, %v, %v, %v, %v⟩%s\n", f.Recv, f.Name, f.Exported, f.PtrRecv,
-			f.InitGuard, f.RonlyGuard, f.Delegates, f.UsesSetState, f.Writes, f.Locks, f.LockFirst, f.ReachWrite, f.ReachLock, f.GetState, sep)
+		fmt.Fprintf(&b, "  ⟨%q, %q, %v, %v, %v, %v, %q, %v, %v, %v, %v, %v, %v, %v, %v⟩%s\n", f.Recv, f.Name, f.Exported, f.PtrRecv,
+			f.InitGuard, f.RonlyGuard, f.Delegates, f.UsesSetState, f.Writes, f.Locks, f.LockFirst, f.ReachWrite, f.ReachLock, f.GetState, f.ViaExported, sep)
 	}
 	b.WriteString("]\n\nend Gen\n")
 	return b.String()
